@@ -28,7 +28,9 @@ RULE = ("cases = (prefix, base path, operation, argument text); non-trivial = th
 ASSUMPTIONS = ["path operations look only at the last base segment and the argument, so bases of <= 2-3 segments cover them"]
 
 SEG = A.SEG
-PREFIXES = ["http://h.com", "//u@h.com:81", "x:", ""]
+PREFIXES = ["http://h.com", "//u@h.com:81", "x:", "",
+            # authorities that are written but host-less, or that collapse to nothing when canonicalised
+            "//@", "foo://:", "x://:80", "//u@"]
 MULTI = ["c/d", "c/", "c//d", "./c", "c/..", "c/./d", "..", ".", "", "%2F", "a b/é", "c/d/"]
 SUFFIXES = ["", ".x", ".x y", ".é", ".a.b", ".%41", ".tar.gz"]
 
@@ -294,7 +296,7 @@ def task_paths(prefix, maxseg, k, part, nparts):
     for i, path in enumerate(paths):
         if i % nparts != part:
             continue
-        if prefix in ("http://h.com", "//u@h.com:81") and path and not path.startswith("/"):
+        if "//" in prefix and path and not path.startswith("/"):
             continue
         if prefix == "" and path.startswith("//"):
             continue
